@@ -102,8 +102,10 @@ def mulK (x k0 k1 : Nat) : Nat := fmul (fmul (ofNat x) (ofNat k0)) k1
 def n16f32 (x : Nat) : Nat := fadd (fmul (ofNat x) c0_n16) (fmul (ofNat x) c1_n16)
 /-- `s8::uf32` -/ def s8f32 (x : Nat) : Nat := mulK (s8norm x) 31 k1_s8
 /-- `s16::uf32` -/ def s16f32 (x : Nat) : Nat := mulK (s16norm x) 73 k1_s16
-/-- `xr10::f32`: `(x as i16 - 0x180) as f32 * (1.0 / 510.0)` -/
-def xr10f32 (x : Nat) : Nat := fmul (ofInt ((x : Int) - 384)) kXr
+/-- `xr10::f32`: `(x as i16 - 0x180) as f32 / 510.0` -/
+def xr10f32 (x : Nat) : Nat := fdiv (ofInt ((x : Int) - 384)) (ofNat 510)
+/-- `xr10::f32` as it was before commit 785f0f7 (`* (1.0 / 510.0)`): kept to state the old defect -/
+def xr10f32Reciprocal (x : Nat) : Nat := fmul (ofInt ((x : Int) - 384)) kXr
 
 /-! ### `f32` → UNORM -/
 
